@@ -113,7 +113,6 @@ CASES = [
          loops={0: {"invariant": [inv_fc]}},
          call_contracts={BONDS + "::_find_connected": cc_find_connected},
          recursive=(BONDS + "::_find_connected",),
-         may_raise=("IndexError",),
          ensures=[("dfs", ens_fc)], timeout=20),
 ]
 MIN_OBLIGATIONS = 8
